@@ -274,3 +274,47 @@ PROPS["C13"] = dict(
         dict(name="nodefail", pkg="c13", run="TestNodeFailure", checks=dict(quick=48, thorough=800), shards=16, timeout=dict(quick=400, thorough=2400), shrinktime="120s"),
     ],
 )
+
+PROPS["C12"] = dict(
+    level="exploration",
+    manifest=dict(
+        text=("Chains of 2-4 connections sharing one client id on 1-3 in-process nodes; the older sessions' PINGREQ / SUBSCRIBE / DISCONNECT / close "
+              "events and every single gossip delivery are interleaved in a generated order (gossip is delivered by hand, message by message, "
+              "destination by destination; the property's proviso is built in: a node accepting connection k+1 has been delivered the announcement "
+              "of session k and nothing else). Oracle: every CONNECT is accepted; with all gossip delivered every node resolves the id to the newest "
+              "session (asked repeatedly, the lookup walks a Go map); each displaced session gets no PINGRESP at its next PINGREQ and is closed; "
+              "afterwards the newest session's record and subscriptions are still listed everywhere, it receives a probe publish exactly once and "
+              "the displaced connections receive nothing."),
+        note=_L3_NOTE + " Failures that depend on Go map iteration order are re-run (up to 4 times) before they are reported; --replay runs the saved case 6 times.",
+        technique="stateful property-based testing with a harness-owned gossip schedule (rapid generation + shrinking)",
+    ),
+    rule=("a case = node count + interleaved step list (connect / ping / sub / disconnect / close per connection, single gossip deliveries, "
+          "deliver-all). Non-trivial = an older session's event or teardown happens after the newest session subscribed. Distinct = distinct case."),
+    assumptions=["proviso of the property: the accepting node knows the previous session", "judged only with all gossip delivered (quiescence)"],
+    runs=[
+        dict(name="regress", pkg="c12", run="TestRegress", timeout=300),
+        dict(name="random", pkg="c12", run="TestRandom", checks=dict(quick=800, thorough=16000), shards=16, timeout=dict(quick=400, thorough=2400), shrinktime="90s"),
+    ],
+)
+
+PROPS["C17"] = dict(
+    level="exploration",
+    manifest=dict(
+        text=("2-3 mount points (tenants) with 2-6 clients on 1-2 in-process nodes; client ids are shared across tenants; filters include bare '#', "
+              "'+/#', '+/x' and filters that spell another tenant's name; publishes (plain and retained, including clears), wills with abrupt close, "
+              "DISCONNECT, and (separate run) failure of a node. Oracle: the expected-delivery model is evaluated per mount point on the un-prefixed "
+              "strings - every client must have read exactly that multiset of (topic, payload, retain flag) after every step, so cross-tenant leaks, "
+              "missing prefixes and wrongly stripped topics all show; sessions of one tenant stay alive, listed and answering when another tenant "
+              "connects with the same client id."),
+        note=_L3_NOTE + " Mount-point names contain no '/', '+', '#'. The mount point is assigned by a harness AuthenticationHandler (username = tenant).",
+        technique="stateful property-based testing of the running cluster with a per-tenant expected-delivery multiset oracle",
+    ),
+    rule=("a case = nodes, clients, step list. Non-trivial = the same client id is used in >= 2 mount points and >= 2 mount points have subscribers. "
+          "Distinct = distinct case."),
+    assumptions=["mount point = username via the harness authentication handler", "within one tenant client ids are distinct (takeover inside a tenant is C12's subject)"],
+    runs=[
+        dict(name="regress", pkg="c17", run="TestRegress", timeout=300),
+        dict(name="random", pkg="c17", run="TestRandom", checks=dict(quick=640, thorough=12000), shards=16, timeout=dict(quick=400, thorough=2400), shrinktime="90s"),
+        dict(name="nodefail", pkg="c17", run="TestNodeFailure", checks=dict(quick=32, thorough=600), shards=16, timeout=dict(quick=400, thorough=2400), shrinktime="120s"),
+    ],
+)
